@@ -16,7 +16,7 @@ MANIFEST = {
  'technique': 'Lean 4 proof (invariant over all server message sequences; function-level theorems about the STS decision points) + table extraction + differential correspondence incl. the real SocketDriver over a fake socket',
  'design_ref': 'DESIGN.md §6 C09',
 }
-THEOREMS = ['C09.sasl_required_safe', 'C09.cap_end_needs_auth', 'C09.sts_parse', 'C09.stsInt_none',
+THEOREMS = ['C09.sasl_required_safe', 'C09.auth_only_in_exchange', 'C09.cap_end_needs_auth', 'C09.sts_parse', 'C09.stsInt_none',
             'C09.sts_store_only_secure', 'C09.sts_store_only_secure_stub', 'C09.sts_insecure_upgrade',
             'C09.upgrade_reconnect', 'C09.flush_not_connected', 'C09.upgrade_next_server', 'C09.forced_tls_verified',
             'C09.sts_applied', 'C09.sts_not_expired_without_disconnect', 'C09.sts_expired_dropped']
